@@ -1,6 +1,6 @@
 """C05 — nesting is bounded (decided part: every recursion of the parser is charged to
 one bounded counter with balanced enter/exit; the depth budget of dotted keys)."""
-from .core import run_property, AnalysisIncomplete, walk, peel, last_seg, calls_in, callee_all, strip_generics, src_facts
+from .core import run_property, AnalysisIncomplete, walk, peel, last_seg, calls_in, callee_all, strip_generics, src_facts, item_scope
 from .cfgm import cfg_of
 from .den import Evaluator, Unanalysable
 from . import parsemodel as pm
@@ -280,7 +280,9 @@ def r4_budget(rep, facts, g):
 def r5_unbounded(rep, facts):
     R = rep.rule('C05/R5', 'the only cfg that removes the counter is feature = "unbounded"', floor=1)
     src = src_facts(facts.repo)
-    sites = [c for c in src['cfgs'] if c['file'].endswith('parser/mod.rs') and c['scope'].startswith('prelude')]
+    # the gates on the counter itself, wherever in the parser module tree it is defined
+    sites = [c for c in src['cfgs'] if '/toml_edit/src/parser/' in c['file'] and
+             ('RecursionCheck' in item_scope(src, c) or (c['node'].startswith('item') and c['name'] in ('LIMIT', 'RecursionCheck', 'check_recursion')))]
     preds = sorted(set(c['pred'] for c in sites))
     rep.check(R, 'prelude|cfg-predicates', preds == ['not (feature = "unbounded")'], f'{len(sites)} gates, all `not(feature = "unbounded")`',
               f'the recursion counter is gated by {preds}')
